@@ -1057,6 +1057,7 @@ func (in *Interp) visitInstr(fr *frame, instr ssa.Instruction) int {
 		v := fr.get(instr.X)
 		panic(&targetPanic{v: v, msg: in.panicString(v)})
 	case *ssa.Send:
+		in.schedPoint(fr)
 		in.chanSend(fr, fr.get(instr.Chan), fr.get(instr.X))
 	case *ssa.Store:
 		in.store(fr, fr.get(instr.Addr), fr.get(instr.Val))
@@ -1079,6 +1080,7 @@ func (in *Interp) visitInstr(fr *frame, instr ssa.Instruction) int {
 		fn, args := in.prepareCall(fr, &instr.Call)
 		if in.sc != nil && in.sc.enabled {
 			in.spawn(fn, args)
+			in.schedPoint(fr)
 			break
 		}
 		// fork-join only: run the goroutine body to completion here.
@@ -1153,12 +1155,16 @@ func (in *Interp) visitInstr(fr *frame, instr ssa.Instruction) int {
 			panic(fmt.Sprintf("Index of %T", x))
 		}
 	case *ssa.Lookup:
+		if _, isMap := instr.X.Type().Underlying().(*types.Map); isMap {
+			in.schedPointMap(fr)
+		}
 		fr.set(instr, in.lookup(fr, instr, fr.get(instr.X), fr.get(instr.Index)))
 	case *ssa.MapUpdate:
 		m := fr.get(instr.Map).(*Map)
 		if m == nil {
 			in.throw(fr, "assignment to entry in nil map")
 		}
+		in.schedPointMap(fr)
 		in.mapSet(fr, m, fr.get(instr.Key), fr.get(instr.Value))
 	case *ssa.TypeAssert:
 		fr.set(instr, in.typeAssert(fr, instr, fr.get(instr.X).(Iface)))
